@@ -198,7 +198,21 @@ def wl_bg(x):
         pass
 
 
-WORKLOADS = {"sync": (wl_sync, 30), "async": (wl_async, 30), "nested": (wl_nested, 30), "refs": (wl_refs, 30),
+def wl_before_closed(x):
+    """close() with a before_closed hook that talks to the peer: a failure inside the hook re-enters close()"""
+    c = x.cconn
+    x.req("before", lambda: c.root.echo(1), ("echo", 1))
+    calls = []
+
+    def hook(root):
+        calls.append(1)
+        return root.echo("bye")
+    c._config["before_closed"] = hook
+    x.req("close", lambda: c.close(), None)
+    x.req("after-close", lambda: c.root.echo(2), "never")
+
+
+WORKLOADS = {"before-closed-hook": (wl_before_closed, 30), "sync": (wl_sync, 30), "async": (wl_async, 30), "nested": (wl_nested, 30), "refs": (wl_refs, 30),
              "client-close": (wl_client_close, 30), "server-close": (wl_server_close, 30),
              "two-threads-no-timeout": (wl_two_threads_no_timeout, None), "bg-thread": (wl_bg, 30)}
 
@@ -409,6 +423,81 @@ def close_race(choices, want_state, cut_fn):
     return sch, {"violations": viol, "outcome_key": (sch.outcome, box.get("closed"), box.get("hooks"))}
 
 
+def close_vs_serving(choices, want_state, cut_fn):
+    """the client closes while another thread of the same side is serving the connection (and the peer answers the
+    close by closing its end): the close must still happen exactly once"""
+    gc.disable()
+    x = Ctx(None, 30)
+    box = {}
+
+    def server():
+        try:
+            x.sconn.serve_all()
+        except EOFError:
+            pass
+        except Exception as ex:   # noqa
+            box["server_exc"] = repr(ex)
+
+    def client_server():
+        try:
+            while not x.cconn.closed:
+                x.cconn.serve(0.1)
+        except EOFError:
+            pass
+        except Exception as ex:   # noqa
+            box["client_srv_exc"] = repr(ex)
+
+    def main():
+        st = S.SimThread(target=server, name="server")
+        st.start()
+        ct = S.SimThread(target=client_server, name="client-serving")
+        ct.start()
+        S.sim_time.sleep(0.05)
+        try:
+            x.cconn.close()
+        except Exception as ex:    # noqa
+            box["c_exc"] = repr(ex)
+        st.join(500)
+        ct.join(500)
+        box["alive"] = (st.is_alive(), ct.is_alive())
+        for conn in (x.cconn, x.sconn):
+            try:
+                conn.serve(0)
+            except EOFError:
+                pass
+            except Exception as ex:   # noqa
+                box["settle"] = repr(ex)
+        box["closed"] = (x.cconn.closed, x.sconn.closed)
+        box["hooks"] = (x.csvc.disconnects, x.ssvc.disconnects)
+        box["done"] = True
+
+    from mc import canon
+    roots = [x.cconn, x.sconn, x.a._of, x.b._of, x.csvc, x.ssvc]
+
+    def state_fn(s):
+        return canon.state_key(s, roots, canon.DEFAULT_PREFIXES)
+
+    sch = S.Scheduler(choices, sync_points=True, io_points=True, horizon=2000, max_steps=200000,
+                      state_fn=state_fn if want_state else None, cut_fn=cut_fn)
+    sch.run(main)
+    viol = []
+    if sch.outcome == "cut":
+        return sch, {"violations": [], "outcome_key": None}
+    if sch.outcome != "done" or not box.get("done"):
+        viol.append(("close-vs-serving:hang:%s" % sch.outcome, repr(sch.deadlock_info)))
+    else:
+        for k in ("server_exc", "client_srv_exc", "c_exc", "settle"):
+            if k in box:
+                viol.append(("close-vs-serving:%s:%s" % (k, box[k].split("(")[0]), box[k]))
+        if box["alive"] != (False, False):
+            viol.append(("close-vs-serving:thread-never-ended:%r" % (box["alive"],), ""))
+        if box["closed"] != (True, True):
+            viol.append(("close-vs-serving:side-not-closed:%r" % (box["closed"],), ""))
+        if box["hooks"] != (1, 1):
+            viol.append(("close-vs-serving:disconnect-hook-count:%r" % (box["hooks"],), ""))
+    return sch, {"violations": viol, "outcome_key": (sch.outcome, box.get("closed"), box.get("hooks"))}
+
+
 def chunks(xs, n):
     return [xs[i:i + n] for i in range(0, len(xs), n)]
 
@@ -417,7 +506,10 @@ def replay(rep):
     env.silence_unraisable()
     outs = []
     for _ in range(2):
-        if rep.get("part") == "close-race":
+        if rep.get("part", "").startswith("close-vs-serving"):
+            sch, obs = close_vs_serving(rep["choices"], False, None)
+            outs.append([v[0] for v in obs["violations"]])
+        elif rep.get("part", "").startswith("close-race"):
             sch, obs = close_race(rep["choices"], False, None)
             outs.append([v[0] for v in obs["violations"]])
         else:
@@ -467,6 +559,11 @@ def main(tier, replay_obj=None):
     res.add_explorer("close-race/pb2", ex)
     res.bounds["close-race"] = ex.stats.bound_completed
     res.info["close_race_states"] = ex.stats.states
+    ex2 = explore.ParallelExplorer(close_vs_serving, bound=2 if tier == "quick" else 3, stop_on_violation=True,
+                                   max_seconds=150 if tier == "quick" else 1500)
+    ex2.explore()
+    res.add_explorer("close-vs-serving/pb%d" % (2 if tier == "quick" else 3), ex2)
+    res.bounds["close-vs-serving"] = ex2.stats.bound_completed
     res.assumptions = ["lenient reading of 'becomes closed': checked after one further serve(0) on each side (what any next use of the "
                        "connection does); the strict reading (closed the instant the failing call returns) is not demanded",
                        "one fault per run; deterministic default schedule for the fault runs; the close/close race is explored over schedules",
